@@ -168,13 +168,15 @@ class Client(object):
         :returns: |Reply| object populated with the response.
 
         """
-        ehlo = Reply(command=b'EHLO')
-        ehlo.enhanced_status_code = False
-        self.reply_queue.append(ehlo)
-
+        # Build the command first: an identifier that cannot be encoded must
+        # not leave a reply queued that the server will never send.
         if not isinstance(ehlo_as, bytes):
             ehlo_as = ehlo_as.encode('ascii')
         command = b'EHLO '+ehlo_as
+
+        ehlo = Reply(command=b'EHLO')
+        ehlo.enhanced_status_code = False
+        self.reply_queue.append(ehlo)
         self.io.send_command(command)
 
         self._flush_pipeline()
@@ -192,13 +194,15 @@ class Client(object):
         :returns: |Reply| object populated with the response.
 
         """
-        helo = Reply(command=b'HELO')
-        helo.enhanced_status_code = False
-        self.reply_queue.append(helo)
-
+        # Build the command first: an identifier that cannot be encoded must
+        # not leave a reply queued that the server will never send.
         if not isinstance(helo_as, bytes):
             helo_as = helo_as.encode('ascii')
         command = b'HELO '+helo_as
+
+        helo = Reply(command=b'HELO')
+        helo.enhanced_status_code = False
+        self.reply_queue.append(helo)
         self.io.send_command(command)
 
         self._flush_pipeline()
@@ -434,13 +438,15 @@ class LmtpClient(Client):
         raise NotImplementedError()
 
     def lhlo(self, lhlo_as):
-        lhlo = Reply(command=b'LHLO')
-        lhlo.enhanced_status_code = False
-        self.reply_queue.append(lhlo)
-
+        # Build the command first: an identifier that cannot be encoded must
+        # not leave a reply queued that the server will never send.
         if not isinstance(lhlo_as, bytes):
             lhlo_as = lhlo_as.encode('ascii')
         command = b'LHLO '+lhlo_as
+
+        lhlo = Reply(command=b'LHLO')
+        lhlo.enhanced_status_code = False
+        self.reply_queue.append(lhlo)
         self.io.send_command(command)
 
         self._flush_pipeline()
